@@ -526,8 +526,7 @@ def run(tier, seed):
     return cov, violations
 
 OPEN_ITEMS = [
-    "C13_equal_correct / C13_allclose_correct carry the boolean premise compare_pre_b (operands satisfy the representation invariant; the two views built from the unifier enumerate exactly the coincidences of the two patterns, each once). It is what soundness + completeness of unify on typed patterns give; its derivation from typing for ALL typed pairs is open (same status as C06_unify_complete). Stop-gaps: discharged in the kernel on the bounded universes (C13_overlap_exact_upto12, C13_overlap_exact_2d_upto6, C13_overlap_exact_small_shapes = exactly the universe this harness enumerates, and the _self_ variants), and evaluated inside the check function on every generated pair (verdict 30 when false: 0 on the typed stream)",
-    "bridge from C06's unify_complete (stated with denotation/eval_s) to the stride-built views of project(): needs a theory of acyclic size-preserving substitutions; not written, which is why the premise is overlap_exact_b and not unify_complete_b",
+    "The premise is now derived from typing, UNBOUNDED (notes/UNIFY.md): C13_equal_correct_typed / C13_allclose_correct_typed / C13_compare_correct_typed need no executable premise -- for every pair of well-formed operands typed alike in one context over good index types (typed_pair; physical axes may be shared, the freshening path is covered), whenever the model answers Ok b, b is the truth about the two dense tensors; C13_overlap_typed is the bridge (the stride-built views enumerate the coincidences, each once), from C06_unify_complete and a theory of well-typed acyclic substitutions (Proofs/Axis_typed.v, Axis_rank.v, Axis_stride_typed.v). Still open: C13_model_total_typed_partial / C13_compare_pre_typed_partial (the model does not fail, hence compare_pre_b = true) carry the side condition `tyfuel <= unify_fuel`, i.e. that the fuel formula of the model of unify is enough for all typed patterns (same open item as C06); stride / fv fuel and the debug check of project() are proved unconditionally. The bounded theorems (C13_overlap_exact_upto12, _2d_upto6, _small_shapes) and the in-check evaluation of compare_pre_b (verdict 30) are kept as cross-checks",
     "float rounding of torch.isclose's threshold atol + rtol*|y| is not modelled (exact rationals); generated values keep a margin of more than 1e-9",
     "MultiTensor.shouldStop's debugging variant (disabled in /repo by `shouldStop = allclose`) is not modelled",
     "F23 (known finding, outside the typed domain): operands typed by different sum decompositions of one dimension; the model follows the unrepaired code",
@@ -571,7 +570,7 @@ def replay(path):
 
 MANIFEST = dict(
     level="proof",
-    text="Coq theorems about a Gallina model of PatternedTensor.equal / allclose / equal_default / allclose_default and MultiTensor.allclose that follows the code statement by statement (size test, freshening, per-element verdicts against the other side's default, unification of the patterns, the two projected views, the count n = cells + overlap, the final conjunction): for well-formed operands whose views enumerate exactly the coincidences of the two patterns (boolean premise, discharged in the kernel on the bounded typed universes and implied by unify soundness + completeness), the model answers True exactly when the two denoted dense tensors have the same shape and satisfy the comparison cell by cell (the counting argument n <= |t| + |u| iff no cell is unbacked on both sides is proved by inclusion-exclusion on the two supports); symmetry, reflexivity and representation insensitivity are corollaries; MultiTensor.allclose reads an absent block as zero. The model is tied to /repo by running both on all pairs of typed patterns over small shapes with steered value assignments; every implementation answer is judged by the extracted oracle 'pointwise comparison of the brute-force dense denotations' on exact rationals.",
-    note="Trusted: Coq kernel + vm_compute, extraction cross-checked against vm_compute, the Python harness (numbering of PhysicalAxis objects, value generation with exact dyadics), torch's dense kernels as reference semantics. The theorems carry the boolean premise compare_pre_b; its derivation from typing is open beyond the bounded universes (same status as unify completeness in C06).",
+    text="Coq theorems about a Gallina model of PatternedTensor.equal / allclose / equal_default / allclose_default and MultiTensor.allclose that follows the code statement by statement (size test, freshening, per-element verdicts against the other side's default, unification of the patterns, the two projected views, the count n = cells + overlap, the final conjunction): for well-formed operands typed alike over good index types (unbounded: the views built from the unifier enumerate exactly the coincidences of the two patterns, derived from unify soundness + completeness on typed patterns; also stated with a boolean premise that is discharged in the kernel on the bounded typed universes), the model answers True exactly when the two denoted dense tensors have the same shape and satisfy the comparison cell by cell (the counting argument n <= |t| + |u| iff no cell is unbacked on both sides is proved by inclusion-exclusion on the two supports); symmetry, reflexivity and representation insensitivity are corollaries; MultiTensor.allclose reads an absent block as zero. The model is tied to /repo by running both on all pairs of typed patterns over small shapes with steered value assignments; every implementation answer is judged by the extracted oracle 'pointwise comparison of the brute-force dense denotations' on exact rationals.",
+    note="Trusted: Coq kernel + vm_compute, extraction cross-checked against vm_compute, the Python harness (numbering of PhysicalAxis objects, value generation with exact dyadics), torch's dense kernels as reference semantics. The premise-free theorems C13_equal_correct_typed / C13_allclose_correct_typed hold for all typed pairs whenever the model answers; that the model always answers is proved under a side condition on the fuel formula of unify (open item shared with C06).",
     technique="Coq proof (model + theorems) + model/implementation correspondence with a verified brute-force oracle + differential third voice (torch on densifications) + metamorphic instances (symmetry, clone/freshen/densify/re-pattern)",
     design_ref="DESIGN.md section 6, C13; Appendix A.6, A.7")
